@@ -332,11 +332,15 @@ impl<'a, 'b> Gen<'a, 'b> {
         if self.prof.keyword_names {
             for _ in 0..6 {
                 let k = *self.src.choose(KEYWORD_NAMES);
-                if !self.field_pool.iter().any(|f| f == k) {
+                // a field named like a rule collides with that rule's type name in the generated
+                // module (e.g. a binding shadowing a unit struct): excluded like other name collisions
+                if !self.field_pool.iter().any(|f| f == k) && !self.names.iter().any(|n| n == k) {
                     self.field_pool.push(k.to_string());
                 }
             }
         }
+        let names = self.names.clone();
+        self.field_pool.retain(|f| !names.contains(f));
         let p = &self.prof;
         let weights = [p.k_struct, p.k_unit, p.k_string, p.k_override, p.k_enum, p.k_charclass, p.k_extern];
         for i in 0..n {
